@@ -76,7 +76,10 @@ class C16Engine(C09.C09Engine):
         kind = self.kinds[h]
         o = self.real[h]
         if kind == "db":
-            cls = self.env.renderers[lang][self.w.m[h]["sqlr" if lang == "sql" else "dbmlr"]]
+            fl = self.w.m[h]["sqlr" if lang == "sql" else "dbmlr"]
+            cls = self.env.renderers[lang][fl]
+            if fl in ("default", "sub"):
+                return None   # render_db is the library's own: decided by consume(), not by calling the same code
             return self._call(lambda: cls.render_db(o))
         owner = self.owner_db(h)
         fl = "default" if owner is None else self.w.m[owner]["sqlr" if lang == "sql" else "dbmlr"]
@@ -84,6 +87,12 @@ class C16Engine(C09.C09Engine):
             cls = self.env.renderers[lang]["default"]
             return self._call(lambda: cls.render(o))
         types = TAGGED_TYPES_FULL if fl == "tag" else TAGGED_TYPES_PARTIAL
+        if fl == "sub" and lang == "sql":
+            # the default SQL renderer checks required attributes before dispatching, subclasses inherit that
+            try:
+                o.check_attributes_for_sql()
+            except Exception as ex:
+                return ["exc", type(ex).__name__]
         if TYPE_OF[kind] in types:
             return tag_text(f"{fl}{lang}", o)
         return ""
@@ -101,9 +110,15 @@ class C16Engine(C09.C09Engine):
         if lang == "sql" and kind not in HAS_SQL + ("db",):
             return
         before = real_dump(self.real, self.kinds)
+        eq_before = self.eq_matrix()
         got = self._call(lambda: getattr(self.real[h], lang))
         after = real_dump(self.real, self.kinds)
+        eq_after = self.eq_matrix()
         self.count(f"probe:render-{kind}.{lang}")
+        if eq_before != eq_after:
+            changed = sorted(set(eq_before) ^ set(eq_after))
+            raise Violation(PROP, "purity", {"after": ctx, "render": [h, lang], "pairs_whose_equality_changed": changed[:6]},
+                            f"purity:equality-changed-by:{kind}.{lang}")
         if before != after:
             raise Violation(PROP, "purity", {"after": ctx, "render": [h, lang], "diff": diff_dumps(before, after)[:8]},
                             f"purity:model-changed-by:{kind}.{lang}")
@@ -111,8 +126,8 @@ class C16Engine(C09.C09Engine):
         if reg != self.reg0:
             raise Violation(PROP, "purity", {"after": ctx, "render": [h, lang], "registries": reg},
                             f"purity:registry-changed-by:{kind}.{lang}")
-        if kind != "index":
-            want = self.expected_text(h, lang)
+        want = self.expected_text(h, lang) if kind != "index" else None
+        if kind != "index" and want is not None:
             if got != want:
                 owner = self.owner_db(h) if kind != "db" else h
                 fl = "detached" if owner is None else self.w.m[owner]["sqlr" if lang == "sql" else "dbmlr"]
@@ -129,13 +144,29 @@ class C16Engine(C09.C09Engine):
             self.count("probe:repeated-render-identical")
         self.memo[key] = (self.version, got)
 
+    def eq_matrix(self) -> List[Tuple[str, str]]:
+        """Observable equality relation among references, tables, enums and indexes (a == b as the library
+        defines it): rendering must not change it."""
+        out = []
+        for kind in ("ref", "table", "enum", "index"):
+            hs = [h for h in self.w.m if self.kinds[h] == kind]
+            for i, a in enumerate(hs):
+                for b in hs[i + 1:]:
+                    try:
+                        if self.real[a] == self.real[b]:
+                            out.append((a, b))
+                    except Exception:
+                        out.append((a, b + "!"))
+        return out
+
     def consume(self, db: str, ctx: Any) -> None:
         """(b) with the default renderers every top-level element's text
         appears verbatim, exactly once, in the database-level text."""
         m = self.w.m
         d = m[db]
         for lang in ("sql", "dbml"):
-            if d["sqlr" if lang == "sql" else "dbmlr"] != "default":
+            fl = d["sqlr" if lang == "sql" else "dbmlr"]
+            if fl not in ("default", "sub"):
                 continue
             text = self._call(lambda: getattr(self.real[db], lang))
             if isinstance(text, list):
@@ -156,6 +187,8 @@ class C16Engine(C09.C09Engine):
                 continue
             rest = text
             for h, t in sorted(parts, key=lambda x: -len(x[1])):
+                if t == "" and fl == "sub":
+                    continue   # element type without a handler: renders as the empty string
                 if t == "":
                     raise Violation(PROP, "join", {"after": ctx, "db": db, "lang": lang, "element": h,
                                                    "what": "element renders as empty text under the default renderer"},
@@ -202,7 +235,7 @@ class C16Engine(C09.C09Engine):
 # ---------------------------------------------------------------------- generation
 
 CONFIGS = [("default", "default"), ("tag", "tag"), ("partial", "partial"), ("default", "tag"), ("partial", "default"),
-           ("tag", "partial")]
+           ("tag", "partial"), ("sub", "sub"), ("sub", "default"), ("default", "sub")]
 
 
 def gen_world(rng: random.Random, via: str) -> World:
@@ -228,6 +261,12 @@ def gen_world(rng: random.Random, via: str) -> World:
         t1, t2 = rng.choice(tables), rng.choice(tables + w.m[db1]["tables"])
         w.ref(rng.choice([">", "<", "-", "<>"]), [rng.choice(w.m[t1]["cols"])], [rng.choice(w.m[t2]["cols"])],
               inline=rng.random() < 0.3, name=rng.choice([None, "lfk"]))
+    # equal-content twins of contained references (a duplicate must be rejected before and after rendering)
+    for r in list(w.m[db1]["refs"]):
+        if rng.random() < 0.6:
+            d = w.m[r]
+            w.ref(d["type"], d["col1"], d["col2"], name=d["name"], comment=d["comment"], on_update=d["on_update"],
+                  on_delete=d["on_delete"], inline=d["inline"] if rng.random() < 0.7 else not d["inline"])
     w.enum(rng.choice(["le", "en0"]), ["p", "q"], schema=rng.choice(["public", "s1"]))
     w.group(rng.choice(["lg", "g0"]), rng.sample(tables, 1), note=rng.choice([None, "gn"]))
     w.sticky("lsn", rng.choice(["text", ""]))
